@@ -657,6 +657,9 @@ func (ex *Exec) loadGlobal(st *State, g *ssa.Global, path []int) Val {
 	s := scalarSort(et)
 	if s == "" {
 		if isSliceT(et) {
+			if tab := ex.w.staticTableOf(g); tab != nil {
+				return ex.staticTableVal(st, g, tab)
+			}
 			return st.freshVal("global_"+g.Name(), et) // contents of package-level slices are not tracked
 		}
 		panic(subsetErr{"composite global " + g.Name()})
